@@ -88,10 +88,24 @@ def run_delay(impl, us, times, qdt, ncols, x0=None, t0=0.0, dt=None, template=No
         res = impl.sim('DelaySSASimulator').py_delay_simulate(impl.iface, q, np.array(times, dtype=float))
     fq = res.py_get_delay_queue()
     nqt = fq.py_get_next_queue_time()
+    # the template the run's queue was copied from must be untouched (read through the array it was constructed on)
+    touched = bool(template is not None and getattr(template, '_verif_array', None) is not None and np.any(template._verif_array != 0))
     out = dict(rows=impl.rows(res.py_get_result()), consumed=st.consumed, overrun=st.overrun,
-               queue=_drain(fq, nr, ncols), queue_next_time=nqt)
+               queue=_drain(fq, nr, ncols), queue_next_time=nqt, template_touched=touched)
     impl.start()
     return out
+
+
+class TemplateQueue:
+    """an empty ArrayDelayQueue built on an array the harness keeps, so that the template's content stays readable"""
+
+    def __init__(self, nr, ncols, qdt):
+        from bioscrape.simulator import ArrayDelayQueue
+        self._verif_array = np.zeros((nr, ncols))
+        self.q = ArrayDelayQueue(self._verif_array, qdt, 0.0)
+
+    def py_copy(self):
+        return self.q.py_copy()
 
 
 def make_volume(vspec):
